@@ -23,7 +23,8 @@ CLAIM = dict(
           'ind_qtt_to_tt; in-bounds, values are entries of Y, exact for k >= number of elements GIVEN that the quantisation preserves the '
           'values (contract qtt_ok_at; the parameter e of optima_qtt is an ABSOLUTE accuracy, default 1e-12, so tensors of small magnitude '
           'need a smaller e, and with a coarse e or a rank cap r the quantisation is lossy: then only bounds, values-are-entries, min <= max and '
-          'the agreement with optima_tt on the same quantised tensor are claimed (checked numerically), not optimality; it is applied to every TT-core separately -- checked numerically with e = 0 and e = 1e-12*min(1, scale) for scales 2^-498..2^498); rejected shapes give ValueError. '
+          'the agreement with optima_tt on the same quantised tensor are claimed, not optimality (C15_optima_qtt_ordered proves values-are-entries '
+          'and min <= max for EVERY quantisation, the swap of commit 285e9fd; bounds and agreement are checked numerically); it is applied to every TT-core separately -- checked numerically with e = 0 and e = 1e-12*min(1, scale) for scales 2^-498..2^498); rejected shapes give ValueError. '
           'REFUTED on the code and listed as known finding C15/rank1-minmax-second-beam: "for every rank-1 tensor with any k the '
           'reported minimum AND maximum are the true ones" -- only the maximum-modulus one is (theorem 3); the opposite-sign optimum '
           'comes from a second beam on the squared shifted tensor of rank up to 4 (C15_rank1_minmax_refuted is a concrete exact '
@@ -591,14 +592,18 @@ def _qtt_cases(tn, rng, thorough):
     and the three rejection branches."""
     items, skipped = [], 0
     todo = [(2, 1), (2, 2), (3, 1), (2, 1), (3, 1), (2, 2)] + ([(3, 2), (2, 3), (4, 1), (2, 2)] if thorough else [])
-    for d, q in todo:
+    todo = [t + (None, None) for t in todo]
+    # lossy quantisation (coarse e, rank cap r): the recorded QTT tensor is replayed, so the model follows it; the ordering swap
+    # after the re-evaluation on Y (commit 285e9fd) is exercised
+    todo += [(2, 2, 0.1, 1), (3, 1, 0.3, 1), (2, 2, 0.05, 2), (2, 2, 0.2, 1), (3, 1, 0.1, 1)] + ([(2, 3, 0.1, 1), (3, 2, 0.1, 2)] if thorough else [])
+    for d, q, e_, r_ in todo:
         n = 2 ** q
         rs = [1] + [rng.randint(1, 2) for _ in range(d - 1)] + [1]
         Y = rand_tt(rng, [n] * d, rs, 'float')
         N = nelem(Y)
         for k in sorted(set([1, 2, N + 1, rng.randint(1, N)])):
             with Rec(tn) as rec:
-                r = tn.optima_qtt(copy_tt(Y), k)
+                r = tn.optima_qtt(copy_tt(Y), k) if e_ is None else tn.optima_qtt(copy_tt(Y), k, e_, r_)
             if len(rec.qtt) != 1 or len(rec.orth) != 4 or len(rec.const) != 1:
                 items.append(dict(coq='(([] : list (list nat)), ([] : list (list (Z * Z))))', broken='oracle call counts',
                                   input=dict(stream='D', d=d, q=q, k=k, Y=[G.tolist() for G in Y])))
@@ -608,7 +613,11 @@ def _qtt_cases(tn, rng, thorough):
             A = tn.full(Y).ravel()
             Bq = np.array([tn.get(Zq, np.asarray(tn.ind_tt_to_qtt(list(i), n))) for i in itertools.product(range(n), repeat=d)])
             qtt_bad = None if np.max(np.abs(A - Bq)) <= 1e-9 * max(1e-300, np.max(np.abs(A))) else 'tt_to_qtt changed the values'
+            if e_ is not None:
+                qtt_bad = None          # lossy on purpose: no value-preservation contract
             c = _tt_case(tn, rng, Zq, k)
+            if c is not None and not far(float(r[1]), float(r[3])) and np.asarray(r[0]).tolist() != np.asarray(r[2]).tolist():
+                c = None                # the swap decision is within rounding
             if c is None:
                 skipped += 1
                 continue
@@ -620,7 +629,7 @@ def _qtt_cases(tn, rng, thorough):
             items.append(dict(coq=f'({env} show4RF (optima_qtt OF sortF ort p2 dr tq 0 0 Y {k}))',
                               r=[np.asarray(r[0]).tolist(), float(r[1]), np.asarray(r[2]).tolist(), float(r[3])],
                               orth_bad=[orth_contract(tn, o) for o in rec.orth] + [qtt_bad], ok=True,
-                              input=dict(stream='D', d=d, q=q, k=k, Y=[G.tolist() for G in Y])))
+                              input=dict(stream='D', d=d, q=q, k=k, e=e_, r=r_, Y=[G.tolist() for G in Y])))
     # rejection branches: unequal mode sizes, not a power of two, mode size 1
     for ns in ([2, 4], [4, 4, 2], [3, 3], [6, 6], [5, 5, 5], [1, 1], [1, 1, 1], [12, 12]):
         Y = rand_tt(rng, ns, [1] + [2] * (len(ns) - 1) + [1], 'float')
@@ -1077,19 +1086,18 @@ def _oracle_qtt(tn, Y, k, form=None, kform=None, shared=False, e=None, r=None, t
         if abs(float(y_min) - Fd[tuple(int(a) for a in i_min)]) > tol or abs(float(y_max) - Fd[tuple(int(a) for a in i_max)]) > tol \
                 or not (_value_is_entry(tn, Y, i_min, y_min) and _value_is_entry(tn, Y, i_max, y_max)):
             return fail('optima_qtt values are not the tensor entries at the returned indices', [float(y_min), float(y_max)])
-        if float(y_min) > float(y_max) + tol:
-            f = fail('optima_qtt reports y_min > y_max', [float(y_min), float(y_max)])
-            if truncating:      # reported to the lead: a lossy quantisation orders the pair by the approximate values
-                f['what'] = 'optima_qtt with a truncating quantisation (coarse e / rank cap) reports y_min > y_max'
-                f['finding_key'] = 'C15/optima_qtt-lossy-order'
-            return f
+        if float(y_min) > float(y_max):
+            return fail('optima_qtt reports y_min > y_max', [float(y_min), float(y_max)])
         # agreement with optima_tt on the quantised tensor, indices mapped back (little-endian bits, by hand)
         Zq = _quiet(tn.tt_to_qtt, copy_tt(Y), 1.E-12 if e is None else e, 100 if r is None else r)
         b_min, _, b_max, _ = _quiet(tn.optima_tt, Zq, k)
         back = lambda b: [sum(int(b[j * q + t]) << t for t in range(q)) for j in range(len(ns))]
-        if back(b_min) != np.asarray(i_min).tolist() or back(b_max) != np.asarray(i_max).tolist():
+        e_min, e_max = back(b_min), back(b_max)
+        if float(_quiet(tn.get, copy_tt(Y), np.asarray(e_min))) > float(_quiet(tn.get, copy_tt(Y), np.asarray(e_max))):
+            e_min, e_max = e_max, e_min         # re-ordered after the re-evaluation on Y (only a lossy quantisation gets here)
+        if e_min != np.asarray(i_min).tolist() or e_max != np.asarray(i_max).tolist():
             return fail('optima_qtt does not agree with optima_tt on the quantised tensor after mapping indices back',
-                        [np.asarray(i_min).tolist(), np.asarray(i_max).tolist()], [back(b_min), back(b_max)])
+                        [np.asarray(i_min).tolist(), np.asarray(i_max).tolist()], [e_min, e_max])
         # a coarse e / a rank cap make the quantisation lossy: the indices may then be suboptimal, only the clauses above apply
         if k >= N and not truncating and (abs(float(y_min) - float(Fd.min())) > tol or abs(float(y_max) - float(Fd.max())) > tol):
             return fail('optima_qtt misses the true minimum / maximum although k >= number of elements',
@@ -1376,9 +1384,10 @@ def search(R, ctx, deep, hints):
                 push(_oracle_tt(tn, Y, k))
     # optima_qtt with a LOSSY quantisation (coarse e, rank cap r): indices in bounds, values EXACTLY the entries of Y at the
     # returned indices, min <= max, agreement with optima_tt on the same quantised tensor; every k
-    registered = {kf.get('key') for kf in C.known_findings('C15')}
-    pending = {}
-    lossy = [rand_tt(rng, [4, 4], [1, 2, 1], 'float'), rand_tt(rng, [2, 2, 2], [1, 2, 2, 1], 'float'),
+    # first the fixed regression input of the repaired defect (commit 285e9fd): optima_qtt(Y, 1, 0.1, 1) returned
+    # i_min=[2,3], y_min=3.0, i_max=[3,3], y_max=1.0
+    lossy = [[np.array([[[2, -3], [1, 0], [3, 3], [-1, -2]]], dtype=float), np.array([[[2], [-1], [2], [3]], [[-3], [-2], [1], [-2]]], dtype=float)],
+             rand_tt(rng, [4, 4], [1, 2, 1], 'float'), rand_tt(rng, [2, 2, 2], [1, 2, 2, 1], 'float'),
              rand_tt(rng, [4, 4, 4], [1, 3, 3, 1], 'float'), rand_tt(rng, [8, 8], [1, 3, 1], 'float')]
     for Y in lossy:
         for e in (1e-1, 1e-2, 1e-4):
@@ -1386,11 +1395,7 @@ def search(R, ctx, deep, hints):
                 for k in (1, 3, nelem(Y) + 1):
                     n_eval += 1
                     fam['qtt-lossy'] = fam.get('qtt-lossy', 0) + 1
-                    f = _oracle_qtt(tn, Y, k, e=e, r=r, truncating=True)
-                    if f and f.get('finding_key') == 'C15/optima_qtt-lossy-order' and f['finding_key'] not in registered:
-                        pending[f['finding_key']] = pending.get(f['finding_key'], 0) + 1   # reported, awaiting a decision
-                        continue
-                    push(f)
+                    push(_oracle_qtt(tn, Y, k, e=e, r=r, truncating=True))
     # quantised variant on power-of-two shapes
     for _ in range(24 if deep else 6):
         d, q = rng.choice([(2, 1), (2, 2), (3, 1), (3, 2), (2, 3), (4, 1)])
@@ -1422,9 +1427,7 @@ def search(R, ctx, deep, hints):
             push(_oracle_func(tn, A, k, k_loc))
     fam['func-rank1'] = nfun
     R.search.append(dict(name='brute force on the dense tensor / fine grid', evaluations=n_eval, failures=len(fails), deep=deep,
-                         families=fam, reported_pending_decision=pending))
-    if pending:
-        R.notes.append('failures of a class reported to the lead and awaiting a decision (not counted): %r' % pending)
+                         families=fam))
     # ./check reports a broken proof / correspondence only when the search returns nothing; the known finding must not
     # mask it: when something else is broken, hand back only the failures that are not the known finding
     broken = (R.build_ok is False) or bool(R.forbidden) or any(not o.get('ok') for o in R.obligations) or \
